@@ -60,6 +60,15 @@ def parseLeaf (j : Json) : Option (Op C) := do
     let n ← fNat? j "n"
     let da := carr (← fFloats? j "dr") (← fFloats? j "di")
     some (Op.diag n (vecOf da))
+  | "imap" =>
+    -- index map read off the real operator on one probe vector; `gather`: eval reads along phi, `scatter`: eval adds along phi
+    let n ← fNat? j "n"
+    let m ← fNat? j "m"
+    let phi := (← fNats? j "phi").toArray
+    let kind ← fStr? j "kind"
+    let one : V C := fun _ => ⟨1.0, 0.0⟩
+    if kind == "gather" then some (Op.imap n m (fun i => phi.getD i n))
+    else some (Op.scatFill n m (fun p => phi.getD p m) one)
   | "circ" =>
     let k ← fNat? j "k"
     let n ← fNat? j "n"
